@@ -48,11 +48,16 @@ def ordered_trees(n):
 
 
 def exhaustive(tier):
-    return [(tier, i, 16) for i in range(16)]
+    return [(tier, i, 16) for i in range(16)] + [("deep", 0, 1)]
 
 
 def run_job(job):
     tier, idx, mod = job
+    if tier == "deep":
+        # depth is not bounded by the small shapes: one caterpillar and one path-with-leaves 300 levels deep (levels
+        # beyond 255, tours longer than 512), queried on a sample of pairs
+        yield {"kind": "deep", "depth": 300}
+        return
     top_t, top_a = (6, 8) if tier == "quick" else (7, 9)
     k = 0
     for n in range(1, top_t + 1):
@@ -116,9 +121,41 @@ def _tuplify(x):
     return tuple(_tuplify(y) for y in x)
 
 
+def _check_deep(case):
+    from ete3 import Tree
+    from superrec2.utils.trees import LowestCommonAncestor
+
+    depth = case["depth"]
+    root = Tree()
+    spine, leaves = [root], []
+    for _ in range(depth):
+        leaves.append(spine[-1].add_child(Tree()))
+        spine.append(spine[-1].add_child(Tree()))
+    lca = LowestCommonAncestor(root)
+    evals = 0
+    for i in range(0, depth + 1, 7):
+        if lca.level(spine[i]) != i:
+            raise Violation("lca.deep.level", observed=lca.level(spine[i]), expected=i)
+        for j in range(i, depth, 13):
+            # leaf j hangs from spine[j]: the deepest common ancestor of spine[i] (i <= j) and that leaf is spine[i]
+            got = lca(spine[i], leaves[j])
+            if got is not spine[i]:
+                raise Violation("lca.deep.pair", observed="other node", expected=f"spine node at depth {i}", extra={"i": i, "j": j})
+            if lca.distance(spine[i], leaves[j]) != j - i + 1:
+                raise Violation("lca.deep.distance", observed=lca.distance(spine[i], leaves[j]), expected=j - i + 1, extra={"i": i, "j": j})
+            if i < j and lca(leaves[i], leaves[j]) is not spine[i]:
+                raise Violation("lca.deep.two-leaves", observed="other node", expected=f"spine node at depth {i}", extra={"i": i, "j": j})
+            if not lca.is_ancestor_of(spine[i], leaves[j]) or lca.is_ancestor_of(leaves[j], spine[i]):
+                raise Violation("lca.deep.is_ancestor_of", observed="wrong", expected="spine node above the leaf", extra={"i": i, "j": j})
+            evals += 4
+    return Result(True, ["deep"], evals=evals)
+
+
 def check(case):
     if case["kind"] == "rmq":
         return _check_rmq(case)
+    if case["kind"] == "deep":
+        return _check_deep(case)
     from superrec2.utils.trees import LowestCommonAncestor
 
     nodes, parent = _build(case)
